@@ -9,7 +9,7 @@ from vlib.shim import SAN_ENV
 ID = "C07"
 LEVEL = "exploration"
 CONFIGS = {"quick": ["san", "san_nv"], "thorough": ["san", "san_nv", "mx_i64"]}
-EXTRA_BUILDS = []
+EXTRA_BUILDS = ["vgv"]
 RULE = ("every parsing / verification entry point (public keys, x-only keys, DER / compact / recoverable signatures, Schnorr and half-aggregate verification, MuSig "
         "nonces / partial signatures / sessions, adaptor signatures, sign-to-contract openings, commitments, generators, tallies, range proofs (info / verify / "
         "rewind), surjection proofs, whitelist signatures, BP++ generator lists and norm-argument proofs, ElligatorSwift) is driven with (i) random bytes at every "
@@ -432,6 +432,54 @@ def wl_dead_objects(u):
             refuse("xonly_serialize", X0, cls="xonly"); refuse("xonly_tweak_add", X0, sk, cls="xonly"); refuse("xonly_tweak_add_check", b32(5), 0, X0, sk, cls="xonly")
             refuse("schnorr_verify", pools.rbytes(rng, 64), msg, X0, cls="xonly"); refuse("halfagg_verify", X0, msg, 1, pools.rbytes(rng, 64), cls="xonly")
 
+def wl_memcheck(u):
+    """a script of boundary-substitution inputs replayed on a VERIFY build under valgrind memcheck (one shard): any report (a branch or
+    address depending on uninitialised memory, an invalid read / write) or a dying process is a violation.  ASan cannot see reads of
+    uninitialised stack objects; VERIFY's own range assertions turn them into branches that memcheck does see."""
+    import subprocess, tempfile, os
+    from vlib import build
+    from vlib.shim import enc
+    ctx = u.ctx; rng = u.rng
+    if ctx.shard != 3 % ctx.nshards or u.config != ctx.configs[0]: return
+    lines = []
+    def L(op, *a): lines.append(op + "".join(" " + enc(x) for x in a))
+    pkX = u.call("pubkey_parse", ser33(mulG(11)), cls="setup", nt=False).b(1); pkY = u.call("pubkey_parse", ser33(mulG(7)), cls="setup", nt=False).b(1)
+    msg = b32(0x1234); sk = b32(11)
+    a162 = adaptor.encrypt(sk, mulG(7), msg, None)
+    sigobj = u.call("sig_parse_compact", b32(5) + b32(7), cls="setup", nt=False).b(1)
+    subs = [0, 1, n - 1, n, n + 1, p - 1, p, p + 1, 2**256 - 1]
+    for off in (1, 34, 66, 98, 130):                     # R.x, R'.x, s', dleq_e, dleq_s
+        for v in subs:
+            t = a162[:off] + b32(v) + a162[off + 32:]
+            L("adaptor_verify", t, pkX, msg, pkY); L("adaptor_decrypt", b32(7), t); L("adaptor_recover", sigobj, t, pkY)
+    for v in subs:
+        for w in subs[:5]:
+            L("sig_parse_compact", b32(v) + b32(w)); L("rsig_parse_compact", b32(v) + b32(w), 1); L("musig_partial_sig_parse", b32(v)); L("xonly_parse", b32(v))
+        L("pubkey_parse", b'\x02' + b32(v)); L("pubkey_parse", b'\x04' + b32(v) + b32(v)); L("commitment_parse", b'\x08' + b32(v)); L("generator_parse", b'\x0a' + b32(v))
+        L("ellswift_decode", b32(v) + b32(subs[(subs.index(v) + 3) % len(subs)])); L("musig_pubnonce_parse", b'\x02' + b32(v) + b'\x03' + b32(v)); L("musig_aggnonce_parse", bytes(33) + b'\x02' + b32(v))
+        L("s2c_opening_parse", b'\x02' + b32(v)); L("seckey_verify", b32(v)); L("seckey_tweak_add", sk, b32(v)); L("pubkey_tweak_mul", pkX, b32(v)); L("keypair_create", b32(v))
+        L("ecdh", pkX, b32(v), 0); L("halfagg_verify", b'', b'', 0, b32(v)); L("wl_parse", b'\x01' + b32(v) + b32(v))
+    path = build.build("vgv", ctx.repo)
+    tmpd = os.path.join(build.CACHE, "tmp"); os.makedirs(tmpd, exist_ok=True)
+    with tempfile.NamedTemporaryFile("w", dir=tmpd, suffix=".vgscript", delete=False) as f: f.write("\n".join(lines) + "\n"); script = f.name
+    try:
+        with open(script) as fin:
+            r = subprocess.run(["valgrind", "-q", "--error-exitcode=0", "--track-origins=no", path], stdin=fin, capture_output=True, text=True, timeout=1500)
+    except subprocess.TimeoutExpired:
+        from vlib.runner import Inconclusive
+        raise Inconclusive("memcheck replay timed out")
+    finally:
+        os.unlink(script)
+    replies = [l for l in r.stdout.splitlines() if l.startswith(("ok", "ERR"))]
+    ctx.bulk("memcheck_replay", "boundary_substitutions", len(replies), "vgv:%d" % ctx.seed); ctx.count("memcheck_replayed_commands", len(replies))
+    nrep = r.stderr.count("== ") and len([l for l in r.stderr.splitlines() if "uninitialised" in l or "Invalid read" in l or "Invalid write" in l])
+    ctx.count("memcheck_reports", nrep)
+    if nrep or r.returncode != 0 or len(replies) < len(lines):
+        first = r.stderr[:3000]
+        import re as _re
+        fr = _re.findall(r"(?:at|by) 0x[0-9A-F]+: (\S+)", first)[:3]
+        ctx.fail("C07:memcheck:%s:%s" % ("report" if nrep else "process_died", "/".join(fr[:2]) if fr else "noframes"), "replayed %d of %d commands, rc=%d, %d memcheck reports\n%s" % (len(replies), len(lines), r.returncode, nrep, first), cmds=lines[max(0, len(replies) - 3):len(replies) + 1], config="vgv")
+
 def libfuzzer(ctx):
     """thorough tier: libFuzzer over the same entry-point families (shim/fuzzdrv.c), bounded by -runs"""
     try:
@@ -464,5 +512,5 @@ def libfuzzer(ctx):
 def run(ctx):
     for config in ctx.cfgs():
         u = U(ctx, config)
-        wl_keys_sigs(u); wl_musig(u); wl_adaptor_s2c_ell(u); wl_zkp(u); wl_surj_wl(u); wl_bppp_halfagg(u); wl_crafted(u); wl_crafted_rings(u); wl_dead_objects(u)
+        wl_keys_sigs(u); wl_musig(u); wl_adaptor_s2c_ell(u); wl_zkp(u); wl_surj_wl(u); wl_bppp_halfagg(u); wl_crafted(u); wl_crafted_rings(u); wl_dead_objects(u); wl_memcheck(u)
     if not ctx.quick: libfuzzer(ctx)
